@@ -58,7 +58,7 @@ EXTRA_POS = {  # positions inside maps/lists addressed by giving the whole conta
     "services": ["{s: @@X@@}", "{@@X@@: {value: V}}"],
     "args": ["[@@X@@]", "[1, @@X@@, 2]"],
     "callargs": ["[@@X@@]"],
-    "call": ["[@@X@@]", "[SetX, [1], true, @@X@@]", "[]"],
+    "call": ["[@@X@@]", "[SetX, @@X@@]", "[SetX, [1], @@X@@]"],
     "tag": ["@@X@@"],
 }
 
@@ -89,7 +89,10 @@ def matrix():
     deep = "[" * 200 + "]" * 200
     cases.append(("deep-args", expand(TEMPLATE, {"args": deep})))
     cases.append(("deep-param", expand(TEMPLATE, {"params": "{p: %s}" % ("{a: " * 150 + "1" + "}" * 150)})))
-    cases.append(("long-names", expand(TEMPLATE, {"params": "{%s: 1}" % ("x" * 3000), "services": "{%s: {value: V}}" % ("y" * 3000)})))
+    # (a simple key of a flow mapping may not exceed 1024 characters: block style with explicit keys, so that the names reach the validators)
+    LN = "n" * 3000
+    cases.append(("long-names", "parameters:\n  ? %s\n  : 1\nservices:\n  ? %s\n  : {constructor: N%s, getter: G%s, type: \"*T%s\", tags: [t%s], fields: {F%s: 1}, calls: [[M%s]], arguments: [\"%%%s%%\", \"@%s\"]}\n" % (("x" + LN), ("y" + LN), LN, LN, LN, LN, LN, LN, "x" + LN, "y" + LN)))
+    cases.append(("long-names-flow", expand(TEMPLATE, {"params": "{%s: 1}" % ("x" * 3000), "services": "{%s: {value: V}}" % ("y" * 3000)})))
     cases.append(("many-cycles", "services:\n" + "".join("  s%d: {constructor: N, arguments: [%s]}\n" % (i, ", ".join("\"@s%d\"" % j for j in range(6) if j != i)) for i in range(6))))
     # self-referential structures in every namespace (anything that is looked up again after being resolved)
     for nm, imps in [("alias-self", "{lib: \"lib/v2\"}"), ("alias-self-exact", "{lib: \"lib\"}"), ("alias-cycle2", "{app: \"core\", core: \"app\"}"),
@@ -128,7 +131,10 @@ def matrix():
     cases.append(("empty", ""))
     cases.append(("only-comment", "# nothing\n"))
     cases.append(("nul-byte", "parameters: {p: \"a\\0b\"}\n"))
-    cases.append(("invalid-utf8", b"parameters: {p: \"\xff\xfe\"}\n".decode("latin-1")))
+    # (bytes that are not UTF-8 travel to the tool exactly: surrogateescape here, a hex marker on the wire)
+    cases.append(("invalid-utf8", b"parameters: {p: \"\xff\xfe\"}\n".decode("utf-8", "surrogateescape")))
+    cases.append(("invalid-utf8-key", b"parameters: {\"\xc3(\": 1}\nservices: {\"\xe2\x82\": {value: V}}\n".decode("utf-8", "surrogateescape")))
+    cases.append(("invalid-utf8-binary", "parameters: {p: !!binary \"//79\"}\nservices: {s: {constructor: N, arguments: [!!binary \"gIE=\"]}}\n"))
     cases.append(("merge-key", "base: &b {value: V}\nservices:\n  s:\n    <<: *b\n    getter: GetS\n"))
     cases.append(("dup-keys", "parameters: {p: 1, p: 2}\n"))
     cases.append(("multi-doc", "parameters: {p: 1}\n---\nparameters: {q: 2}\n"))
@@ -153,6 +159,7 @@ def run(tier, seed, replay):
     Y = "parameters: {p: 1}\n"
     D = lambda p: {"path": p, "content": "", "dir": True}
     F = lambda p, c=Y: {"path": p, "content": c}
+    L = lambda p, target: {"path": p, "content": "", "link": target}
     layouts = [
         ("dirs-last", [F("conf/a.yaml"), D("conf/b.d"), F("conf/c.yaml", "parameters: {q: 2}\n"), D("conf/d.d")], ["conf/*"]),
         ("dirs-first", [D("conf/0.d"), D("conf/1.d"), F("conf/a.yaml")], ["conf/*"]),
@@ -165,6 +172,18 @@ def run(tier, seed, replay):
         ("dot-and-dotdot", [F("conf/a.yaml")], [".", "..", "conf", "conf/."]),
         ("empty-pattern", [F("conf/a.yaml")], ["", "conf/a.yaml"]),
         ("many-dirs", [D("conf/d%02d" % i) for i in range(40)] + [F("conf/z.yaml")], ["conf/*"]),
+        # symbolic links: dangling, to itself, in a loop, to a directory, to a file that is matched as well, to a file outside
+        ("link-dangling-glob", [F("conf/a.yaml"), L("conf/b.yaml", "nowhere.yaml")], ["conf/*.yaml"]),
+        ("link-dangling-literal", [F("conf/a.yaml"), L("conf/b.yaml", "nowhere.yaml")], ["conf/b.yaml"]),
+        ("link-dangling-only", [L("conf/b.yaml", "/nonexistent/x.yaml")], ["conf/*.yaml"]),
+        ("link-self", [L("conf/c.yaml", "c.yaml")], ["conf/*.yaml"]),
+        ("link-loop", [L("conf/c.yaml", "d.yaml"), L("conf/d.yaml", "c.yaml"), F("conf/a.yaml")], ["conf/a.yaml", "conf/c.yaml"]),
+        ("link-to-dir", [D("conf/sub"), L("conf/e.yaml", "sub"), F("conf/a.yaml")], ["conf/*.yaml"]),
+        ("link-to-matched-file", [F("conf/a.yaml"), L("conf/z.yaml", "a.yaml")], ["conf/*.yaml"]),
+        ("link-to-outside", [F("elsewhere/x.yaml", "parameters: {q: 2}\n"), L("conf/l.yaml", "../elsewhere/x.yaml")], ["conf/*.yaml"]),
+        ("link-dir-in-glob", [F("real/a.yaml"), L("conf", "real")], ["conf/*.yaml"]),
+        ("output-is-dangling-link", [F("conf/a.yaml"), L("out.go", "nowhere/gen.go")], ["conf/*.yaml"]),
+        ("output-is-link-to-file", [F("conf/a.yaml"), F("target.go", "OLD\n"), L("out.go", "target.go")], ["conf/*.yaml"]),
     ]
     for name, files, pats in layouts:
         sp = common.mk_spec(len(specs), files, patterns=pats)
@@ -175,7 +194,8 @@ def run(tier, seed, replay):
     for pos in ("pkg", "imports", "functions", "params", "services", "decorators", "service", "args", "calls", "fields", "tags", "scope", "getter", "dmg", "version"):
         for kn in ("int", "null", "seq", "map", "emptymap", "str", "alias", "nested"):
             for order in (0, 1):
-                pair = [expand(TEMPLATE, {}), expand(TEMPLATE, {pos: KINDS[kn]})]
+                # (the second file carries another tag and decorator: both files with the same tag would stop every case at "duplicate tag")
+                pair = [expand(TEMPLATE, {}), expand(TEMPLATE, dict({"tagname": "tg2", "dtag": "tg2"}, **{pos: KINDS[kn]}))]
                 sp = common.mk_spec(len(specs), pair[::-1] if order else pair)
                 sp["what"] = ["two-files:%s=%s/%d" % (pos, kn, order)]
                 specs.append(sp)
@@ -299,11 +319,14 @@ def run(tier, seed, replay):
     nbin = 0
     tmp = tempfile.mkdtemp(prefix="gvc12_", dir="/dev/shm")
     try:
-        for name, text in (cases[::29] if tier == "quick" else cases[::5]):
+        # every directed case (big graphs, nesting, long names, byte strings, many errors ...) and a stride of the matrix, byte for byte
+        directed = [c for c in cases if "=" not in c[0]]
+        matrix_cells = [c for c in cases if "=" in c[0]]
+        for name, text in directed + (matrix_cells[::29] if tier == "quick" else matrix_cells[::5]):
             cfg = os.path.join(tmp, "c.yaml")
-            open(cfg, "w", encoding="latin-1", errors="replace").write(text)
+            open(cfg, "wb").write(text.encode("utf-8", "surrogateescape"))
             p = subprocess.run("ulimit -v 4000000; timeout 30 %s build -i %s -o %s" % (os.path.join(tooldir, "gontainer"), cfg, os.path.join(tmp, "o.go")),
-                               shell=True, stdout=subprocess.PIPE, stderr=subprocess.PIPE, text=True)
+                               shell=True, stdout=subprocess.PIPE, stderr=subprocess.PIPE, text=True, errors="replace")
             nbin += 1
             if p.returncode not in (0, 1) or "panic:" in p.stderr or "goroutine " in p.stderr:
                 out.violation("cli:" + name, "CLI binary: exit %d, stderr %r" % (p.returncode, p.stderr[-300:]), {"files": [{"path": "c.yaml", "content": text}], "patterns": ["c.yaml"], "output": "o.go", "flags": {}, "version": ""})
